@@ -1,7 +1,7 @@
 """C06 - filters impose their constraints exactly and idempotently on vectors/matrices.
 
-Streams: "filters" (every case: implementation = Lean model, independent oracle) and "known-findings" (the cases of
-the main stream that fall into the input class of an open finding, judged again with the abort class kept).
+One stream "filters": every case is run by the implementation and the Lean model (equality) and judged by the
+independent oracle.
 
 Case kinds: `vec` (LAFEM filters and their compositions), `gvec` (the same through Global::Filter / Global::Vector),
 `gmean` (Global::MeanFilter with / without communicator and frequency vector), `mat` / `matb` (CSR / BCSR members).
@@ -10,9 +10,10 @@ have four pairwise different member functions, built so that calling any other m
 changes the result (so a combinator that forwards filter_def to a member's filter_cor etc. cannot pass).
 Slip normals are never normalised (entries of different magnitude, key `S-normals-of-different-magnitude`).
 
-Open finding (KNOWN_FINDINGS.json, signature "c06-edge:F1"): MeanFilterBlocked's constructors test
-`volume.norm_euclid_sqr() > eps` instead of every component, so weights with one vanishing volume component are
-accepted and filter_rhs/sol/def/cor then divide by that component.
+Fixed finding c06-edge:F1 (repo commit 45e34adcb): MeanFilterBlocked's constructors / convert used to test
+`volume.norm_euclid_sqr() > eps`; they now test `abs(volume[i]) > eps` for every component.  Weights with a vanishing
+volume component are an ordinary 'constructor must abort' class (`outside-domain:volume not positive`): the model
+aborts there and the oracle requires the abort.
 
 Not runtime violations, documented here only:
 * F2 (compile time): UnitFilter::filter_offdiag_row_mat(SparseMatrixBCSR<DT, IT, 1, 1>&) is an ambiguous overload
@@ -509,7 +510,7 @@ CORPUS = [
     "matb mat 2 2 UB 2 0 1 2 1 0 nan 1/1 2 2 3 0 1 2 2 0 1 8 1/1 2/1 3/1 4/1 5/1 6/1 7/1 8/1",
     # zero normal: division by zero in the slip kernel (outside the property's domain)
     "vec rhs S2 S 2 3 1 1 0/1 0/1 B 2 3 1/1 2/1 3/1 4/1 5/1 6/1",
-    # FINDINGS_C06 F1: MeanFilterBlocked accepts a volume with a vanishing component, then divides by it
+    # former finding F1 (fixed): a volume with a vanishing component must be rejected by the constructor
     "vec rhs MB2 MB 2 0 2 1/1 0/1 1/1 0/1 1/1 1/1 1/1 1/1 0/1 0/1 0/1 0/1 B 2 2 1/1 2/1 3/1 4/1",
     # chain with overlapping members: the last one wins / mean after unit disturbs the unit constraint
     "vec rhs C(U,U) C 2 U 0 3 1 0 9/1 U 0 3 1 0 8/1 D 3 4/1 5/1 6/1",
@@ -563,10 +564,16 @@ def read_filter(c):
         return ("S", b, n, [(c.nat(), c.qs(b)) for _ in range(m)])
     if k == "M":
         ct, n = c.nat(), c.nat()
-        return ("M", ct, n, c.qs(n), c.qs(n), c.q(), c.q())
+        prim, dual, sol, vol = c.qs(n), c.qs(n), c.q(), c.q()
+        if ct == 0 and NAN not in prim + dual:
+            vol = dot(prim, dual)          # the 3-argument constructor computes the volume itself
+        return ("M", ct, n, prim, dual, sol, vol)
     if k == "MB":
         b, ct, n = c.nat(), c.nat(), c.nat()
-        return ("MB", b, ct, n, c.qs(n * b), c.qs(n * b), c.qs(b), c.qs(b))
+        prim, dual, sol, vol = c.qs(n * b), c.qs(n * b), c.qs(b), c.qs(b)
+        if ct == 0 and NAN not in prim + dual:
+            vol = [dot(prim[j::b], dual[j::b]) for j in range(b)]
+        return ("MB", b, ct, n, prim, dual, sol, vol)
     if k == "N":
         return ("N",)
     if k == "NB":
@@ -603,6 +610,10 @@ def filter_leaves(f):
 # ---------------------------------------------------------------------------------------------
 # the property, in Python: what each filter has to do (Fractions, dictionaries, no loops of the C++)
 # ---------------------------------------------------------------------------------------------
+
+# classes of inputs the constructors have to reject with an assertion
+MUST_ABORT = ("volume not positive", "array constructor with size 0")
+
 
 class OutOfDomain(Exception):
     """the input is outside the domain of the property (the real code aborts or is undefined there)"""
@@ -642,10 +653,8 @@ def check_filter_domain(f):
         b = f[1]
         if NAN in f[4] + f[5] + f[6] + f[7]:
             raise OutOfDomain("NaN weight")
-        if f[3] > 0 and not (dot(f[7], f[7]) > EPS):
-            raise OutOfDomain("volume not positive")
-        if f[3] > 0 and any(x == 0 for x in f[7]):
-            raise OutOfDomain("volume component zero")      # FINDINGS_C06 F1
+        if f[3] > 0 and not all(abs(x) > EPS for x in f[7]):
+            raise OutOfDomain("volume not positive")      # every component is a divisor: |vol_j| > eps required
     if k in ("C", "Q", "T", "P"):
         for s in f[1]:
             check_filter_domain(s)
@@ -970,9 +979,11 @@ def oracle_vec(case, out):
         check_filter_domain(f)
         want1 = spec(mode, f, v)
         want2 = spec(mode, f, want1)
-    except OutOfDomain:
+    except OutOfDomain as e:
         if out.split(":")[0] in ("SIGNAL", "TIMEOUT", "SANITIZER"):
             return "filter outside its domain ended with " + out
+        if str(e) in MUST_ABORT and not out.startswith("ABORT"):
+            return "constructor accepted an input it has to reject (%s): %s" % (e, out[:80])
         return None
     if is_abnormal(out):
         return "filter on a valid input ended with " + out
@@ -1165,42 +1176,6 @@ def oracle(case, out):
         return "unparsable implementation output (%s): %s" % (e, out[:200])
 
 
-F1_WHY = "MeanFilterBlocked accepted a volume with a vanishing component and divided by it"
-
-
-def is_f1_class(case):
-    """input class of finding F1: a blocked mean filter with weights whose volume has a zero component but a
-    squared norm > eps (and nothing else in the case that divides by zero)"""
-    if not (case.startswith("vec ") or case.startswith("gvec ")):
-        return False
-    try:
-        mode, sig, f, v = parse_vec_case(case)
-    except Exception:
-        return False
-    hit = False
-    for m in filter_leaves(f):
-        if m[0] == "S" and any(all(x == 0 for x in nu) for _, nu in m[3]):
-            return False
-        if m[0] == "MB" and m[2] in (0, 1) and m[3] > 0 and NAN not in m[4] + m[5] + m[6] + m[7]:
-            if any(x == 0 for x in m[7]) and dot(m[7], m[7]) > EPS:
-                hit = True
-    return hit
-
-
-def oracle_f1(case, out):
-    """the constructor has to reject such weights ('domain volume must not be zero'); dividing by the vanishing
-    component (exact scalar: abort 'division by zero', floating point: inf/NaN entries) is the defect"""
-    if out == "ABORT:div0":
-        return F1_WHY
-    return None
-
-
-def canon_keep_div0(out):
-    if out.startswith("ABORT:Q:_division_by_zero"):
-        return "ABORT:div0"
-    return canon(out)
-
-
 def canon(out):
     if out.startswith("ABORT"):
         return "ABORT"
@@ -1327,8 +1302,6 @@ def nontrivial(case):
 
 
 def signature(case, out, why):
-    if why == F1_WHY:
-        return "c06-edge:F1"
     t = case.split()
     return "%s-%s:%s" % (t[0], t[1], (why or "")[:40])
 
@@ -1355,9 +1328,6 @@ def main(argv):
             (gen_cases(rng, 20000) if args.tier == "quick" else gen_cases(rng, 150000, big=True))
     st = vlib.Stream("filters", cases, [binary], vlib.driver_cmd(PROP), oracle=oracle, nontrivial=nontrivial,
                      describe=describe, signature=signature, canon=canon)
-    st_kf = vlib.Stream("known-findings", [c for c in cases if is_f1_class(c)], [binary], None, oracle=oracle_f1,
-                        nontrivial=lambda c: True, describe=lambda c: ["class:F1-volume-component-zero"],
-                        signature=signature, canon=canon_keep_div0)
     stats_rule = ("random unit / unit-blocked / slip / mean / mean-blocked / none filters and %d chain, sequence, tuple and "
                   "power compositions of them (depth <= 4, overlapping index sets included) on vectors of 0..8 (thorough: "
                   "..40) dofs, index sets empty / all / random / first+last / single / with duplicates, both constructors, "
@@ -1365,7 +1335,7 @@ def main(argv):
                   "rectangular CSR and BCSR matrices incl. rows without stored diagonal and empty rows; every case is "
                   "applied twice; non-trivial = inside the domain and some member constrains 0 < |idx| < n entries "
                   "(mean filter: >= 2 dofs)" % len(VEC_SIGS))
-    rc = vlib.run_pipeline(PROP, args.tier, args.seed, lean, [st, st_kf], t0, assumptions=[
+    rc = vlib.run_pipeline(PROP, args.tier, args.seed, lean, [st], t0, assumptions=[
         "Index modelled as unbounded Nat; indices of filter entries are < size (ASSERT only in debug builds)",
         "NaN is modelled by one marker value of the exact scalar (only as a filter value); Math::isnan<Q> is supplied by the harness",
         "aborts of the exact scalar on division by zero stand for the NaN/Inf results of floating point (zero normal, "
